@@ -61,3 +61,32 @@ Proof.
     repeat match goal with |- context [if ?c then _ else _] => destruct c end; cbn; discriminate.
 Qed.
 Print Assumptions C13_seek_no_panic.
+
+(* ---- work bounds ---- *)
+From UV Require Import Hamt.HashBitsSpec Hamt.IterOrder Hamt.WorkBound.
+Local Open Scope N_scope.
+
+(* a lookup on ANY block DAG requests at most one block per unread bit of the key's hash (<= 64 for murmur3-x64-64),
+   however deep or cyclic-looking the hostile DAG is: every level consumes at least one bit and a level that would
+   read past the hash is an error *)
+Theorem C13_lookup_work_bounded : forall fault b pf hb key consumed,
+  let tr := snd (lookup_blk fault b pf hb key consumed) in
+  tr = [] \/ consumed + N.of_nat (length tr) <= nbits hb.
+Proof. exact lookup_loads_bounded. Qed.
+Print Assumptions C13_lookup_work_bounded.
+
+(* full iteration and length(): at most one event / one request per link of the (unfolded) DAG that was given *)
+Theorem C13_iteration_work_bounded : forall fault b pf rp,
+  N.of_nat (length (iter_blk fault b pf rp)) <= tree_links b + 1.
+Proof. exact iteration_steps_bounded. Qed.
+Print Assumptions C13_iteration_work_bounded.
+
+Theorem C13_iteration_requests_bounded : forall fault b pf,
+  N.of_nat (length (shard_walk fault b pf)) <= tree_links b.
+Proof. exact iteration_requests_bounded. Qed.
+Print Assumptions C13_iteration_requests_bounded.
+
+Theorem C13_length_requests_bounded : forall fault b pf,
+  N.of_nat (length (snd (length_blk fault b pf))) <= tree_links b.
+Proof. exact length_requests_bounded. Qed.
+Print Assumptions C13_length_requests_bounded.
